@@ -75,6 +75,14 @@ class IArr2:
         if isinstance(sl, ast.Tuple) and len(sl.elts) == 2 and not isinstance(sl.elts[0], ast.Slice):
             row = IView(self.key, self._row(ev, sl.elts[0], node), 0, self.cols)
             return row.sym_getitem(sl.elts[1], ev, node)
+        if isinstance(sl, ast.Tuple) and len(sl.elts) == 2 and isinstance(sl.elts[0], ast.Slice) and isinstance(sl.elts[1], ast.Slice):
+            a, b = sl.elts
+            if a.lower is not None or a.upper is not None or a.step is not None or b.step is not None:
+                raise Outside("2-D subscript form")
+            lo = z3.IntVal(0) if b.lower is None else Z(ev.eval(b.lower))
+            hi = Z(self.cols) if b.upper is None else Z(ev.eval(b.upper))
+            ev.wd(z3.And(lo >= 0, lo <= hi, hi <= Z(self.cols)), "slice_in_range", node)
+            return IBlock(self.key, self.rows, lo, hi - lo)
         if isinstance(sl, (ast.Slice, ast.Tuple)):
             raise Outside("2-D subscript form")
         return IView(self.key, self._row(ev, sl, node), 0, self.cols)
@@ -176,7 +184,7 @@ class IView:
             return symex.PyCallable(fill)
         raise Outside(f"int view attribute .{attr}")
 
-    def sym_len(self, ev, node):
+    def sym_len(self):
         return self.n
 
 
@@ -231,7 +239,9 @@ def setup_block(cmd, version, mean_mode):
         st.assume(nmean == 0 if mean_mode == "nomean" else nmean >= 1)
         nblock = simp(z3.If(nmean >= 1, nmean, 1))
         st.ghost.update(BUF=z3.Array("BUF0", I, I, I), OFF=z3.Array("OFF0", I, I, I), QLPC=z3.Array("QLPC0", I, I), rc=0, fixcalls=0)
-        st.env.update(buffer=IArr2("BUF", nchan, bs + nwrap), offset=IArr2("OFF", nchan, nblock), qlpc=IView("QLPC", None, 0, maxnlpc),
+        width = api.sym("buffer_width")     # allocated for the stream's FIRST block size; a later BLOCKSIZE command may only shorten blocks
+        st.assume(width >= bs + nwrap)
+        st.env.update(buffer=IArr2("BUF", nchan, width), offset=IArr2("OFF", nchan, nblock), qlpc=IView("QLPC", None, 0, maxnlpc),
                       chan=chan, nchan=nchan, blocksize=bs, nwrap=nwrap, nmean=nmean, bitshift=bitshift, ftype=ftype,
                       cmd=CMDS[cmd], version=version, lpcqoffset=(32 if version > 1 else 0))
         resn, nlpc = g("resn"), g("nlpc")
@@ -342,8 +352,8 @@ def h_fix_bitshift(ex, st, args, kwargs, node, ev):
     if not ok:
         raise Outside("fix_bitshift call form")
     v = args[0]
-    ex.oblige(st, z3.And(v.key == "BUF", v.row == c["chan"], v.lo == c["nwrap"], v.n == c["bs"]) if v.key == "BUF" else False,
-              f"fix_up_covers_exactly_the_block.{lbl}", "trace", node.lineno)
+    ex.oblige(st, z3.And(v.row == c["chan"], v.lo == c["nwrap"], v.n >= c["bs"]) if v.key == "BUF" else False,
+              f"fix_up_starts_at_the_block_and_covers_it.{lbl}", "trace", node.lineno)
     ex.oblige(st, z3.And(Z(args[1]) == c["bs"], Z(args[2]) == c["bitshift"], Z(args[3]) == c["ftype"]), f"fix_up_gets_blocksize_bitshift_ftype.{lbl}", "trace", node.lineno)
     ex.oblige(st, _decoded(st, c), f"decoded_block_is_the_encoded_samples.{lbl}", "post", node.lineno)
     (t,) = _fresh_ints("ht")
@@ -499,7 +509,7 @@ def unit_block(prop="C13"):
 # ------------------------------------------------------------------------------------------------------------- fix_bitshift
 # Per element, against shorten's own definition (shorten.c `fix_bitshift`): file types AU1 / AU2 map the internal mu-law code through the
 # ulaw_outward table of the current bit shift (AU2 with its two-zero convention), every other type is shifted left by bitshift;
-# only the first nitem cells are touched.  Preconditions (established by the caller / the format): the view has exactly nitem cells,
+# Preconditions (established by the caller / the format): the view has at least nitem cells (cells past the block are scratch),
 # internal mu-law codes lie in the table's domain and the bit shift in its 13 rows.
 UO = z3.Function("ulaw_outward", I, I, I)
 
@@ -538,7 +548,7 @@ def setup_fix(kind):
         B0 = z3.Array("FB0", I, I)
         st.ghost.update(FB=B0)
         (t,) = _fresh_ints("pt")
-        st.assume(z3.And(n == nitem, nitem >= 0, bitshift >= 0, bitshift <= 31))
+        st.assume(z3.And(n >= nitem, nitem >= 0, bitshift >= 0, bitshift <= 31))
         if kind == "AU1":
             st.assume(z3.And(ftype == 0, bitshift <= 12, z3.ForAll([t], z3.Implies(z3.And(t >= 0, t < nitem), z3.And(z3.Select(B0, t) >= -128, z3.Select(B0, t) <= 127)))))
         elif kind == "AU2":
@@ -562,7 +572,12 @@ def contract_fix():
         rest = z3.ForAll([t], z3.Implies(z3.Or(t < 0, t >= hi), z3.Select(st.ghost["FB"], t) == z3.Select(c["B0"], t)))
         return z3.And(done, rest)
 
-    consts = {"FIXED": SpecFn(lambda ev: fixed(ev)), "FIXED_UPTO": SpecFn(lambda ev, i: z3.And(Z(i) >= 0, Z(i) <= ev.ex.ctx["nitem"], fixed(ev, i))),
+    def fixed_block(ev):
+        st, c = ev.st, ev.ex.ctx
+        (t,) = _fresh_ints("yt")
+        return z3.ForAll([t], z3.Implies(z3.And(t >= 0, t < c["nitem"]), z3.Select(st.ghost["FB"], t) == fixspec(c["kind"], z3.Select(c["B0"], t), c["bitshift"], negz)))
+
+    consts = {"FIXED": SpecFn(fixed_block), "FIXED_UPTO": SpecFn(lambda ev, i: z3.And(Z(i) >= 0, Z(i) <= ev.ex.ctx["nitem"], fixed(ev, i))),
               "ULAW_OUTWARD": UOTable()}
     for k_, v_ in mc.items():
         if isinstance(v_, int) and k_ not in consts:
@@ -571,7 +586,7 @@ def contract_fix():
         target="_sphere:fix_bitshift", uses=["A-PYSEM", "A-INT32", "A-SHIFT", "A-NP-FANCY"],
         consts=consts, handlers={"binop": h_binop},
         loops={0: LoopSpec(kind="for", var="i", modifies_ghost=["FB"], invariant=[("fixed_so_far", "FIXED_UPTO(i)")])},
-        ensures=[("every_sample_of_the_block_fixed_up_nothing_else_touched", "FIXED()")],
+        ensures=[("every_sample_of_the_block_fixed_up", "FIXED()")],
     )
     return c
 
@@ -623,4 +638,646 @@ def unit_div(prop="C13"):
         from contracts.registry import run_contract
         return run_contract(prop, ("_sphere", "c99_div"), contract_div(), [("", _setup_div)], name="c99_div", to_case=_to_case_helpers, replay_module="rtc.c13")
     unit.__name__ = "c99_div"
+    return unit
+
+
+# ------------------------------------------------------------------------------------------------------------- decoder set-up
+# The statements between the stream header and the command loop establish exactly what the block contract assumes on entry:
+# history length nwrap = max(maxnlpc, 3), a zeroed (nchan, blocksize + nwrap) int32 buffer, maxnlpc coefficient cells, the version's
+# rounding offset, max(1, nmean) running means per channel initialised to the type's zero level (0 for every SPHERE sample type).
+class Alloc:
+    def __init__(self, how, shape, fill, dtype):
+        self.how, self.shape, self.fill, self.dtype = how, shape, fill, dtype
+
+
+def _h_alloc(how):
+    def h(ex, st, args, kwargs, node, ev):
+        shape = args[0]
+        fill = 0 if how == "zeros" else (args[1] if how == "full" else None)
+        dt = kwargs.get("dtype")
+        return Alloc(how, tuple(shape) if isinstance(shape, (tuple, list)) else (shape,), fill, dt.term if isinstance(dt, Opaque) else dt)
+    return h
+
+
+def sel_setup(fn):
+    out, on = [], False
+    for s in fn.body:
+        txt = ast.unparse(s)
+        if isinstance(s, ast.Assign) and txt.startswith("nwrap ="):
+            on = True
+        if isinstance(s, ast.While):
+            break
+        if on:
+            out.append(s)
+    return out
+
+
+def setup_setup(version):
+    def setup(ex, st):
+        nchan, bs, maxnlpc, nmean, ftype = (api.sym(x) for x in ("nchan", "blocksize", "maxnlpc", "nmean", "ftype"))
+        st.assume(z3.And(nchan >= 1, bs >= 0, maxnlpc >= 0, nmean >= 0, ftype >= 0, ftype < 9))
+        st.env.update(nchan=nchan, blocksize=bs, maxnlpc=maxnlpc, nmean=nmean, ftype=ftype, version=version, lpcqoffset=0,
+                      error=Opaque("IOError", "exc"))
+        ex.ctx = dict(version=version, nchan=nchan, bs=bs, maxnlpc=maxnlpc, nmean=nmean, ftype=ftype)
+    return setup
+
+
+def contract_setup():
+    def shape_is(ev, name, *dims):
+        v = ev.st.env.get(name)
+        if not isinstance(v, Alloc) or len(v.shape) != len(dims):
+            return z3.BoolVal(False)
+        return z3.And(*[Z(a) == Z(b) for a, b in zip(v.shape, dims)], z3.BoolVal(v.dtype == "int32"))
+
+    def filled(ev, name, val):
+        v = ev.st.env.get(name)
+        return z3.And(z3.BoolVal(isinstance(v, Alloc) and v.fill is not None), Z(v.fill) == Z(val)) if isinstance(v, Alloc) and v.fill is not None else z3.BoolVal(False)
+
+    def zero_level(ev):
+        ft = ev.ex.ctx["ftype"]
+        return z3.If(ft == 2, z3.IntVal(0x8), z3.If(z3.Or(ft == 4, ft == 6), z3.IntVal(0x8000), z3.IntVal(0)))
+
+    consts = {"SHAPE_IS": SpecFn(shape_is), "FILLED": SpecFn(filled), "ZERO_LEVEL": SpecFn(zero_level), "np.int32": Opaque("int32", "dtype"),
+              "HAS_QLPC": SpecFn(lambda ev: isinstance(ev.st.env.get("qlpc"), Alloc))}
+    for k_, v_ in extract.module_constants("_sphere").items():
+        if isinstance(v_, int) and k_ not in consts:
+            consts[k_] = v_
+    return Contract(
+        target="_sphere:copy_shortened_samples", uses=["A-PYSEM", "A-NP-ALLOC"],
+        consts=consts, handlers={"np.zeros": _h_alloc("zeros"), "np.empty": _h_alloc("empty"), "np.full": _h_alloc("full")},
+        raises={"IOError": "False"},
+        ensures=[("history_length", "nwrap >= 3 and nwrap >= maxnlpc and (nwrap == 3 or nwrap == maxnlpc)"),
+                 ("buffer_is_zeroed_nchan_by_block_plus_history", "SHAPE_IS('buffer', nchan, blocksize + nwrap) and FILLED('buffer', 0)"),
+                 ("one_cell_per_possible_coefficient", "implies(maxnlpc > 0, HAS_QLPC() and SHAPE_IS('qlpc', maxnlpc))"),
+                 ("rounding_offset_of_the_version", "lpcqoffset == (32 if version > 1 else 0)"),
+                 ("running_means_start_at_the_types_zero_level", "SHAPE_IS('offset', nchan, ite(nmean >= 1, nmean, 1)) and FILLED('offset', ZERO_LEVEL())"),
+                 ("first_block_is_channel_0", "chan == 0")],
+    )
+
+
+def unit_setup(prop="C13"):
+    def unit(tier, known):
+        from contracts.registry import run_contract
+        from pyvc.check import UnitResult
+        try:
+            fx = extract.get_slice("_sphere", "copy_shortened_samples", sel_setup, "decoder set-up between the stream header and the command loop")
+        except KeyError as e:
+            u = UnitResult("shorten_setup")
+            u.outside.append(("_sphere:copy_shortened_samples", str(e)))
+            return u
+        return run_contract(prop, fx, contract_setup(), [("v1", setup_setup(1)), ("v2", setup_setup(2))], name="shorten_setup", fname="shorten_setup",
+                            to_case=_to_case, replay_module="rtc.c13")
+    unit.__name__ = "shorten_setup"
+    return unit
+
+
+# ------------------------------------------------------------------------------------------------------------- the command loop
+# `while True: cmd = uvar_get(FNSIZE) ...` with the statements of the block slice (covered above) DROPPED except its first
+# (`cbuffer = buffer[chan]`) and last (the fix_bitshift call), whose handler here applies the block contract's postcondition: row `chan`
+# of the buffer now holds this block's fixed-up samples D(block, chan, i), other rows untouched.  The specification is stated on ghost
+# counters that the handler advances on its own (expected channel, block size and bit shift from the stream, output position): sample i
+# of channel c of a block must land at output position base + i * nchan + c once ALL channels of that block are decoded, mu-law codes
+# expanded through ULAW2PCM iff the caller asked for a wider type; QUIT returns the number of samples per channel; an unknown
+# command raises the caller's IOError; BLOCKSIZE / BITSHIFT take their operand from the stream.
+# Channel counts are enumerated (1, 2, 3: the interleaving index algebra i * nchan + c is then linear); block sizes, block counts,
+# shifts and sample values are unbounded.  Assumed: A-NP-TFLAT (`a[:, p:q].T.flat` enumerates column by column), A-DATA-FITS (the
+# caller's output array is long enough for the stream; its length is not modelled).
+D = z3.Function("decoded_sample", I, I, I, I)      # (block number, channel, index in block) -> fixed-up sample
+CMD = z3.Function("command_code", I, I)
+OPER = z3.Function("command_operand", I, I)
+U2P = z3.Function("ulaw2pcm", I, I)
+
+
+class IBlock:
+    """buffer[:, lo:lo+n]"""
+    def __init__(self, key, rows, lo, n):
+        self.key, self.rows, self.lo, self.n = key, rows, simp(Z(lo)), simp(Z(n))
+
+    def sym_getattr(self, attr, ev, node):
+        if attr == "T":
+            return ITrans(self)
+        raise Outside(f"2-D block attribute .{attr}")
+
+
+class ITrans:
+    def __init__(self, blk):
+        self.blk = blk
+
+    def sym_getattr(self, attr, ev, node):
+        if attr == "flat":
+            b = self.blk
+            if not isinstance(b.rows, int):
+                raise Outside("transpose-flat with a symbolic channel count")
+            return IFlat(b.key, b.rows, b.lo, simp(b.n * b.rows))
+        raise Outside(f"transposed block attribute .{attr}")
+
+
+class IFlat:
+    """(buffer[:, lo:lo+n]).T.flat : element k is buffer[k mod rows, lo + k div rows]   (A-NP-TFLAT)"""
+    def __init__(self, key, rows, lo, n):
+        self.key, self.rows, self.lo, self.n = key, rows, lo, n
+
+    def at(self, arr, k):
+        return z3.Select(arr, k % self.rows, self.lo + k / self.rows)
+
+
+class U2PTable:
+    def sym_getitem(self, sl, ev, node):
+        v = ev.eval(sl)
+        if not isinstance(v, IView):
+            raise Outside("ULAW2PCM subscript form")
+        (t,) = _fresh_ints("pt")
+        arr = ev.st.ghost[v.key]
+        ev.ex.oblige(ev.st, z3.ForAll([t], z3.Implies(z3.And(t >= 0, t < v.n), z3.And(v.sel(arr, t) >= 0, v.sel(arr, t) < 256))),
+                     f"expansion_table_index_in_range.L{node.lineno - ev.ex.fx.lineno}", "wd", node.lineno)
+        return IExpr(v, lambda x: U2P(x))
+
+
+class DataView(IView):
+    """the caller's output array; its length is not modelled (A-DATA-FITS)"""
+    def _bounds(self, sl, ev, node):
+        if sl.step is not None:
+            raise Outside("stepped slice")
+        lo = z3.IntVal(0) if sl.lower is None else Z(ev.eval(sl.lower))
+        if sl.upper is None:
+            return simp(lo), None
+        hi = Z(ev.eval(sl.upper))
+        ev.wd(z3.And(lo >= 0, lo <= hi), "slice_in_range", node)
+        return simp(lo), simp(hi)
+
+    def sym_getitem(self, sl, ev, node):
+        if isinstance(sl, ast.Slice):
+            lo, hi = self._bounds(sl, ev, node)
+            if hi is None:
+                ev.wd(lo >= 0, "slice_in_range", node)
+                return DataView(self.key, None, self.lo + lo, 0)
+            return IView(self.key, None, self.lo + lo, hi - lo)
+        raise Outside("scalar read of the output array")
+
+    def sym_setitem(self, sl, v, ev, node):
+        if isinstance(sl, ast.Slice) and sl.upper is not None:
+            lo, hi = self._bounds(sl, ev, node)
+            tgt = IView(self.key, None, self.lo + lo, hi - lo)
+            if isinstance(v, IFlat):
+                ev.ex.oblige(ev.st, Z(v.n) == tgt.n, f"store_length.L{node.lineno - ev.ex.fx.lineno}", "wd", node.lineno)
+                src = ev.st.ghost[v.key]
+                tgt._write(ev.st, z3.IntVal(0), tgt.n, lambda u: v.at(src, u))
+                return
+            return tgt.sym_setitem(ast.Slice(lower=None, upper=None, step=None), v, ev, node)
+        raise Outside("output store form")
+
+
+def sel_loop(fn):
+    import copy
+    loops = [s for s in fn.body if isinstance(s, ast.While)]
+    rets = [s for s in fn.body if isinstance(s, ast.Return)]
+    if not loops or not rets:
+        return []
+    w = copy.deepcopy(loops[-1])
+    blk = sel_block(w)
+    if len(blk) < 2:
+        return []
+    drop = set(id(s) for s in blk[1:-1])
+    for x in ast.walk(w):
+        if isinstance(x, ast.If) and any(id(s) in drop for s in x.body):
+            x.body = [s for s in x.body if id(s) not in drop]
+    return [w, rets[-1]]
+
+
+def setup_loop(nchan, convert, aukind):
+    """aukind: 'AU' (ftype in {AU1, AU2}: samples are mu-law codes) | 'PCM'"""
+    def setup(ex, st):
+        bs0, nwrap, ftype = (api.sym(x) for x in ("blocksize0", "nwrap", "ftype"))
+        st.assume(z3.And(bs0 >= 1, nwrap >= 3, z3.Or(ftype == 0, ftype == 8) if aukind == "AU" else z3.And(ftype >= 1, ftype <= 7)))
+        st.ghost.update(BUF=z3.Array("BUF0", I, I, I), DATA=z3.Array("DATA0", I, I), EXPECT=z3.Array("EXPECT0", I, I),
+                        gchan=0, gbs=bs0, gshift=0, gbase=0, gdone=0, gblk=0, gcmd=0)
+        st.env.update(buffer=IArr2("BUF", nchan, bs0 + nwrap), data=DataView("DATA", None, 0, 0), nchan=nchan, blocksize=bs0, nwrap=nwrap, bitshift=0,
+                      ftype=ftype, convert=convert, chan=0, sampsdone=0, error=Opaque("IOError", "exc"), cmd=0)
+        k, t = z3.Ints("k_ t_")
+        b, c = z3.Ints("b_ c_")
+        # the block contract's postcondition + fix_bitshift's: mu-law codes come out of the outward table, i.e. are bytes (table checked below)
+        if aukind == "AU":
+            st.assume(z3.ForAll([b, c, t], z3.And(D(b, c, t) >= 0, D(b, c, t) <= 255)))
+        ex.ctx = dict(nchan=nchan, convert=convert, bs0=bs0, nwrap=nwrap, ftype=ftype, aukind=aukind)
+    return setup
+
+
+def _out(c, x):
+    return U2P(x) if c["convert"] else x
+
+
+def _inv_loop_parts(ev):
+    st, c = ev.st, ev.ex.ctx
+    g = st.ghost
+    env = st.env
+    nch = c["nchan"]
+    (k,) = _fresh_ints("lk")
+    cc, i = _fresh_ints("lc", "li")
+    data = env["data"]
+    written = z3.ForAll([k], z3.Implies(z3.And(k >= 0, k < Z(g["gbase"])), z3.Select(g["DATA"], k) == _out(c, z3.Select(g["EXPECT"], k))))
+    pending = z3.ForAll([cc, i], z3.Implies(z3.And(cc >= 0, cc < Z(g["gchan"]), i >= 0, i < Z(g["gbs"])),
+                                            z3.Select(g["BUF"], cc, c["nwrap"] + i) == z3.Select(g["EXPECT"], Z(g["gbase"]) + i * nch + cc)))
+    return {
+        "position": z3.And(z3.BoolVal(isinstance(data, DataView)), data.lo == Z(g["gbase"]) if isinstance(data, IView) else False,
+                           Z(env["sampsdone"]) == Z(g["gdone"]), Z(g["gbase"]) == Z(g["gdone"]) * nch, Z(g["gdone"]) >= 0),
+        "channel": z3.And(Z(env["chan"]) == Z(g["gchan"]), Z(g["gchan"]) >= 0, Z(g["gchan"]) < nch),
+        "stream_state": z3.And(Z(env["blocksize"]) == Z(g["gbs"]), Z(g["gbs"]) >= 1, Z(g["gbs"]) <= c["bs0"], Z(env["bitshift"]) == Z(g["gshift"]),
+                               Z(g["gcmd"]) >= 0, Z(g["gblk"]) >= 0),
+        "written": written, "pending": pending,
+        # an iteration that neither returned nor raised was a block / BLOCKSIZE / BITSHIFT command (0-3, 5-8)
+        "only_known_commands_continue": z3.Or(Z(g["gcmd"]) == 0, z3.And(CMD(Z(g["gcmd"])) >= 0, CMD(Z(g["gcmd"])) <= 8, CMD(Z(g["gcmd"])) != 4)),
+        "pending_codes_are_bytes": z3.ForAll([cc, i], z3.Implies(z3.And(cc >= 0, cc < Z(g["gchan"]), i >= 0, i < Z(g["gbs"])),
+                                                                 z3.And(z3.Select(g["BUF"], cc, c["nwrap"] + i) >= 0, z3.Select(g["BUF"], cc, c["nwrap"] + i) <= 255)))
+        if c["aukind"] == "AU" else z3.BoolVal(True)}
+
+
+def _inv_loop(ev, part):
+    return _inv_loop_parts(ev)[part]
+
+
+def h_loop_uvar_get(ex, st, args, kwargs, node, ev):
+    what = ast.unparse(node.args[0]) if node.args else ""
+    g = st.ghost
+    if what == "FNSIZE":
+        g["gcmd"] = simp(Z(g["gcmd"]) + 1)
+        code = CMD(Z(g["gcmd"]))
+        st.assume(code >= 0)
+        return code
+    if what == "BITSHIFTSIZE":
+        v = OPER(Z(g["gcmd"]))
+        st.assume(z3.And(v >= 0, v <= 31))
+        g["gshift"] = v
+        return v
+    raise Outside(f"uvar_get({what}) in the command loop")
+
+
+def h_loop_ulong_get(ex, st, args, kwargs, node, ev):
+    g = st.ghost
+    v = OPER(Z(g["gcmd"]))
+    # a conforming encoder only ever shortens blocks, and announces a new size between complete blocks (before channel 0)
+    st.assume(z3.And(v >= 1, v <= ex.ctx["bs0"], Z(g["gchan"]) == 0))
+    g["gbs"] = v
+    return v
+
+
+def h_loop_fix(ex, st, args, kwargs, node, ev):
+    """the block contract's postcondition, and the ghost bookkeeping of the specification"""
+    lbl = f"L{node.lineno - ex.fx.lineno}"
+    c, g = ex.ctx, st.ghost
+    ok = len(args) == 4 and not kwargs and isinstance(args[0], IView) and args[0].key == "BUF"
+    ex.oblige(st, ok, f"fix_bitshift_called_on_a_view_of_the_buffer.{lbl}", "trace", node.lineno)
+    if not ok:
+        raise Outside("fix_bitshift call form")
+    v = args[0]
+    ex.oblige(st, z3.And(v.row == Z(g["gchan"]), v.lo == c["nwrap"], v.n >= Z(g["gbs"])), f"block_decoded_into_the_expected_channel_row.{lbl}", "trace", node.lineno)
+    ex.oblige(st, z3.And(Z(args[1]) == Z(g["gbs"]), Z(args[2]) == Z(g["gshift"]), Z(args[3]) == c["ftype"]),
+              f"fix_up_gets_the_streams_blocksize_and_bitshift.{lbl}", "trace", node.lineno)
+    ch, bs, base, blk, nch = Z(g["gchan"]), Z(g["gbs"]), Z(g["gbase"]), Z(g["gblk"]), c["nchan"]
+    r_, t_ = _fresh_ints("br", "bt")
+    hist = z3.Function(f"history!{next(symex._fresh)}", I, I)
+    old = g["BUF"]
+    g["BUF"] = z3.Lambda([r_, t_], z3.If(r_ == ch, z3.If(z3.And(t_ >= c["nwrap"], t_ < c["nwrap"] + bs), D(blk, ch, t_ - c["nwrap"]), hist(t_)), z3.Select(old, r_, t_)))
+    (k_,) = _fresh_ints("ek")
+    olde = g["EXPECT"]
+    # EXPECT[base + i * nchan + ch] := D(blk, ch, i) for i < bs
+    g["EXPECT"] = z3.Lambda([k_], z3.If(z3.And(k_ >= base, k_ < base + bs * nch, (k_ - base) % nch == ch), D(blk, ch, (k_ - base) / nch), z3.Select(olde, k_)))
+    last = ch == nch - 1
+    g["gchan"] = simp(z3.If(last, 0, ch + 1))
+    g["gbase"] = simp(z3.If(last, base + bs * nch, base))
+    g["gdone"] = simp(z3.If(last, Z(g["gdone"]) + bs, Z(g["gdone"])))
+    g["gblk"] = simp(z3.If(last, blk + 1, blk))
+    return None
+
+
+def contract_loop():
+    mc = extract.module_constants("_sphere")
+
+    consts = {"INV": SpecFn(_inv_loop), "ULAW2PCM": U2PTable()}
+    parts = ("position", "channel", "stream_state", "written", "pending", "pending_codes_are_bytes", "only_known_commands_continue")
+    for k_, v_ in mc.items():
+        if isinstance(v_, int) and k_ not in consts:
+            consts[k_] = v_
+
+    def result_ok(ev, res):
+        st, c = ev.st, ev.ex.ctx
+        g = st.ghost
+        (k,) = _fresh_ints("rk")
+        return z3.And(Z(res) == Z(g["gdone"]), z3.ForAll([k], z3.Implies(z3.And(k >= 0, k < Z(g["gdone"]) * c["nchan"]),
+                                                                          z3.Select(g["DATA"], k) == _out(c, z3.Select(g["EXPECT"], k)))))
+
+    consts["RESULT_OK"] = SpecFn(result_ok)
+    consts["LAST_CMD"] = SpecFn(lambda ev: CMD(Z(ev.st.ghost["gcmd"])))
+    consts["WHOLE_BLOCKS"] = SpecFn(lambda ev: Z(ev.st.ghost["gchan"]) == 0)
+    c = Contract(
+        target="_sphere:copy_shortened_samples", uses=["A-PYSEM", "A-INT32", "A-NP-TFLAT", "A-DATA-FITS", "A-BITREADER", "A-BLOCK"],
+        consts=consts,
+        handlers={"uvar_get": h_loop_uvar_get, "ulong_get": h_loop_ulong_get, "fix_bitshift": h_loop_fix, "binop": h_binop},
+        loops={0: LoopSpec(kind="while", modifies_ghost=["BUF", "DATA", "EXPECT", "gchan", "gbs", "gshift", "gbase", "gdone", "gblk", "gcmd"],
+                           types={"data": lambda hst, v: DataView("DATA", None, symex.fresh("dlo"), 0)},
+                           invariant=[(p_, f"INV('{p_}')") for p_ in parts])},
+        ensures=[("returns_samples_per_channel_and_the_interleaved_output", "RESULT_OK(result)"),
+                 ("returns_only_on_QUIT", "LAST_CMD() == 4")],
+    )
+    c.canaries = [("returns_one_sample_more", "RESULT_OK(result + 1)")]
+    c.raises_now = {"IOError": "LAST_CMD() >= 9"}
+    return c
+
+
+LOOP_LABELS = [f"{n}|{cv}|{au}" for n in (1, 2, 3) for (cv, au) in ((0, "PCM"), (0, "AU"), (1, "AU"))]
+
+
+def generate_loop(prop, label):
+    from contracts.registry import run_contract
+    from pyvc.check import UnitResult
+    n, cv, au = label.split("|")
+    mc = extract.module_constants("_sphere")
+    uo, nz = mc.get("ULAW_OUTWARD"), mc.get("NEGATIVE_ULAW_ZERO")
+    u = UnitResult("shorten_loop")
+    # the one fact about table CONTENTS the contract uses (mu-law codes after the fix-up are bytes): checked by enumeration, every run
+    if not (isinstance(uo, list) and len(uo) == 13 and all(isinstance(r, list) and len(r) == 256 and all(isinstance(x, int) and 0 <= x <= 255 for x in r) for r in uo)
+            and isinstance(nz, int) and 0 <= nz <= 255):
+        u.outside.append(("_sphere:ULAW_OUTWARD", "the outward table is not a 13 x 256 table of bytes (or is no longer a literal)"))
+        return u
+    try:
+        fx = extract.get_slice("_sphere", "copy_shortened_samples", sel_loop, "command loop with the block statements dropped (covered by shorten_block)")
+    except KeyError as e:
+        u.outside.append(("_sphere:copy_shortened_samples", str(e)))
+        return u
+    return run_contract(prop, fx, contract_loop(), [(label, setup_loop(int(n), bool(int(cv)), au))], name="shorten_loop", fname="shorten_loop")
+
+
+def unit_loop(prop="C13"):
+    def unit(tier, known):
+        from contracts.registry import run_parallel
+        jobs = [("contracts.shorten_block", "generate_loop", (prop, label)) for label in LOOP_LABELS]
+        return run_parallel("shorten_loop", jobs, to_case=_to_case, replay_module="rtc.c13")
+    unit.__name__ = "shorten_loop"
+    return unit
+
+
+# ------------------------------------------------------------------------------------------------------------- stream header
+# The top-level statements before the decoder set-up, with the nested function definitions and the mask-table construction dropped
+# (the closures are verified bit-precisely in contracts/shorten.py): version byte, reader initialisation, the six header fields and
+# the skipped bytes.  IOError exactly when the buffer is shorter than magic + version, the version is not 1 or 2, or the file type is
+# not one of shorten's nine; the bit reader starts right after the version byte with an empty word; the fields are read in the
+# order ftype, nchan, blocksize, maxnlpc, nmean, nskip; nskip bytes are skipped; mu-law codes are expanded iff the caller's output type
+# is wider than a byte and the stream holds mu-law (types AU1 / AU2).
+ULONG = z3.Function("header_field", I, I)
+
+
+class ByteBuf:
+    def __init__(self, buflen, lo=0, hi=None):
+        self.buflen, self.lo, self.hi = buflen, lo, hi
+
+    def sym_len(self):
+        if self.hi is not None:
+            raise Outside("len of a buffer slice")
+        return simp(self.buflen - self.lo)
+
+    def sym_getitem(self, sl, ev, node):
+        if not isinstance(sl, ast.Slice) or sl.step is not None:
+            raise Outside("buffer subscript form")
+        lo = 0 if sl.lower is None else ev.eval(sl.lower)
+        hi = None if sl.upper is None else ev.eval(sl.upper)
+        if not isinstance(lo, int) or not (hi is None or isinstance(hi, int)) or self.hi is not None:
+            raise Outside("buffer slice with symbolic bounds")
+        return ByteBuf(self.buflen, self.lo + lo, None if hi is None else self.lo + hi)
+
+    def sym_getattr(self, attr, ev, node):
+        if attr == "tobytes":
+            return symex.PyCallable(lambda ev2, a, kw, n2: self)
+        raise Outside(f"buffer attribute .{attr}")
+
+
+def sel_header(fn):
+    out = []
+    for s in fn.body:
+        txt = ast.unparse(s)
+        if isinstance(s, ast.Assign) and txt.startswith("nwrap ="):
+            break
+        if isinstance(s, ast.FunctionDef):
+            continue                                   # word_get / uvar_get / ulong_get / var_get: contracts/shorten.py
+        if "masktab" in txt or (isinstance(s, ast.Assign) and txt.startswith("val =")):
+            continue                                   # mask table: contracts/shorten.py
+        out.append(s)
+    return out
+
+
+def setup_header(wide):
+    def setup(ex, st):
+        buflen, itemsize, version = api.sym("buflen"), api.sym("itemsize"), api.sym("version_byte")
+        st.assume(z3.And(buflen >= 4, version >= -128, version <= 127))     # the caller saw the 4 magic bytes (copy_samples' contract)
+        st.assume(itemsize >= 2 if wide else itemsize == 1)
+        j = z3.Int("hj")
+        st.assume(z3.ForAll([j], ULONG(j) >= 0))
+        dt = api.mk_obj(st, "data_dtype", "DType", {"itemsize": itemsize})
+        api.mk_obj(st, "data", "Data", {"dtype": dt})
+        api.mk_obj(st, "word_get", "Closure", {"inpbuf": None})
+        api.mk_obj(st, "uvar_get", "Closure", {"gbuffer": None, "nbitget": None})
+        st.env.update(inpbuf=ByteBuf(buflen), error=Opaque("IOError", "exc"), file_=Opaque("file", "file"))
+        st.ghost.update(nfields=0, xbytes=0, unpacked=0)
+        ex.ctx = dict(buflen=buflen, itemsize=itemsize, version=version, wide=wide)
+    return setup
+
+
+def h_hdr_compare(ex, st, op, a, b, n, ev):
+    if isinstance(a, ByteBuf) and isinstance(b, bytes) and isinstance(op, ast.Eq):
+        ok = (a.lo, a.hi) == (0, 4)
+        ex.oblige(st, ok, f"magic_looked_for_in_the_first_four_bytes.L{n.lineno - ex.fx.lineno}", "trace", n.lineno)
+        return True          # precondition: the caller hands over a data section that starts with the magic
+    return NotImplemented
+
+
+def h_unpack(ex, st, args, kwargs, node, ev):
+    ok = len(args) == 2 and args[0] == "b" and isinstance(args[1], ByteBuf) and (args[1].lo, args[1].hi) == (4, 5)
+    ex.oblige(st, ok, f"version_is_the_signed_byte_after_the_magic.L{node.lineno - ex.fx.lineno}", "trace", node.lineno)
+    if not ok:
+        raise Outside("struct.unpack form")
+    st.ghost["unpacked"] = 1
+    return (ex.ctx["version"],)
+
+
+def h_hdr_ulong(ex, st, args, kwargs, node, ev):
+    k = st.ghost["nfields"]
+    st.ghost["nfields"] = k + 1
+    rd = st.fields.get(("word_get", "inpbuf"))
+    ok = isinstance(rd, ByteBuf) and (rd.lo, rd.hi) == (5, None) and st.fields.get(("uvar_get", "gbuffer")) == 0 and st.fields.get(("uvar_get", "nbitget")) == 0
+    ex.oblige(st, ok, f"bit_reader_starts_after_the_version_byte_with_an_empty_word.L{node.lineno - ex.fx.lineno}", "trace", node.lineno)
+    return ULONG(z3.IntVal(k))
+
+
+def h_hdr_uvar(ex, st, args, kwargs, node, ev):
+    if len(args) == 1 and args[0] == 7:       # XBITESIZE: one skipped byte
+        st.ghost["xbytes"] = simp(Z(st.ghost["xbytes"]) + 1)
+        return symex.fresh("skipped_byte")
+    raise Outside("uvar_get in the header slice")
+
+
+def contract_header_slice():
+    names = ("ftype", "nchan", "blocksize", "maxnlpc", "nmean", "nskip")
+
+    def fields_ok(ev):
+        env = ev.st.env
+        return z3.And(z3.BoolVal(ev.st.ghost["nfields"] == 6), *[Z(env[nm]) == ULONG(z3.IntVal(k)) if nm in env and symex.is_z3(env[nm]) else z3.BoolVal(False) for k, nm in enumerate(names)])
+
+    def convert_ok(ev):
+        env, c = ev.st.env, ev.ex.ctx
+        want = z3.And(c["itemsize"] > 1, z3.Or(ULONG(z3.IntVal(0)) == 0, ULONG(z3.IntVal(0)) == 8))
+        return Zb(env["convert"]) == want
+
+    def must_raise(ev):
+        c = ev.ex.ctx
+        bad_version = z3.Or(c["version"] < 1, c["version"] > 2)
+        # (the file type is only looked at when the first two tests pass)
+        return z3.Or(c["buflen"] < 5, bad_version, ULONG(z3.IntVal(0)) >= 9)
+
+    consts = {"FIELDS_OK": SpecFn(fields_ok), "CONVERT_OK": SpecFn(convert_ok), "MUST_RAISE": SpecFn(must_raise),
+              "XBYTES": SpecFn(lambda ev: Z(ev.st.ghost["xbytes"])), "memoryview": None}
+    for k_, v_ in extract.module_constants("_sphere").items():
+        if isinstance(v_, (int, bytes)) and k_ not in consts:
+            consts[k_] = v_
+    consts.pop("memoryview")
+    c = Contract(
+        target="_sphere:copy_shortened_samples", uses=["A-PYSEM", "A-BITREADER"],
+        consts=consts,
+        handlers={"memoryview": lambda ex, st, args, kwargs, node, ev: args[0], "compare": h_hdr_compare, "struct.unpack": h_unpack,
+                  "ulong_get": h_hdr_ulong, "uvar_get": h_hdr_uvar, "warnings.warn": lambda ex, st, args, kwargs, node, ev: None},
+        loops={0: LoopSpec(kind="for", modifies_ghost=["xbytes"], invariant=[("one_byte_per_iteration", "XBYTES() == _ and 0 <= _ <= nskip")])},
+        ensures=[("six_fields_in_the_documented_order", "FIELDS_OK()"), ("expansion_iff_wide_output_and_mulaw_stream", "CONVERT_OK()"),
+                 ("skips_nskip_bytes", "XBYTES() == nskip"), ("decoder_state_starts_clear", "chan_unset_bitshift_zero()")],
+    )
+    c.consts["chan_unset_bitshift_zero"] = SpecFn(lambda ev: z3.And(Z(ev.st.env["bitshift"]) == 0, Z(ev.st.env["sampsdone"]) == 0))
+    c.raises_now = {"IOError": "MUST_RAISE()"}
+    return c
+
+
+def unit_header(prop="C13"):
+    def unit(tier, known):
+        from contracts.registry import run_contract
+        from pyvc.check import UnitResult
+        try:
+            fx = extract.get_slice("_sphere", "copy_shortened_samples", sel_header, "stream header: version, reader initialisation, six fields, skipped bytes (closures and mask table dropped)")
+        except KeyError as e:
+            u = UnitResult("shorten_header")
+            u.outside.append(("_sphere:copy_shortened_samples", str(e)))
+            return u
+
+        def tc(ob):
+            try:
+                from rtc import c13
+                return list(c13._error_cases(0, "quick")) + list(c13._grid_cases(0, "quick"))[:30]
+            except Exception:
+                return None
+        return run_contract(prop, fx, contract_header_slice(), [("wide_output", setup_header(True)), ("byte_output", setup_header(False))],
+                            name="shorten_header", fname="shorten_header", to_case=tc, replay_module="rtc.c13")
+    unit.__name__ = "shorten_header"
+    return unit
+
+
+# ------------------------------------------------------------------------------------------------------------- word_get (the refill)
+# The closure that feeds the bit reader: the next four bytes of (buffered data section ++ rest of the file) as a big-endian signed
+# word; the stream position advances by exactly four, no byte is skipped or read twice across a refill; IOError exactly when fewer
+# than four bytes are left in buffer and file together (a stream that ends early).
+WORD = z3.Function("be_word_at", I, I)
+
+
+class SymBuf:
+    """bytes [lo, lo + n) of the ghost stream"""
+    def __init__(self, lo, n):
+        self.lo, self.n = simp(Z(lo)), simp(Z(n))
+
+    def sym_len(self):
+        return self.n
+
+    def sym_getitem(self, sl, ev, node):
+        if not isinstance(sl, ast.Slice) or sl.step is not None:
+            raise Outside("buffer subscript form")
+        lo = 0 if sl.lower is None else ev.eval(sl.lower)
+        hi = None if sl.upper is None else ev.eval(sl.upper)
+        if not isinstance(lo, int) or lo < 0 or not (hi is None or (isinstance(hi, int) and hi >= lo)):
+            raise Outside("buffer slice bounds")
+        # Python slices clamp to the length
+        a = simp(z3.If(self.n < lo, self.n, z3.IntVal(lo)))
+        b = self.n if hi is None else simp(z3.If(self.n < hi, self.n, z3.IntVal(hi)))
+        return SymBuf(self.lo + a, b - a)
+
+    def sym_getattr(self, attr, ev, node):
+        if attr == "tobytes":
+            return symex.PyCallable(lambda ev2, a, kw, n2: self)
+        raise Outside(f"buffer attribute .{attr}")
+
+
+def _wg_binop(ex, st, op, a, b, n):
+    if isinstance(op, ast.Add) and isinstance(a, SymBuf) and isinstance(b, SymBuf):
+        ex.oblige(st, b.lo == a.lo + a.n, f"refill_continues_where_the_buffer_ends.L{n.lineno - ex.fx.lineno}", "trace", n.lineno)
+        return SymBuf(a.lo, a.n + b.n)
+    return NotImplemented
+
+
+def _wg_read(ex, st, o, args, kwargs, node, ev):
+    (k,) = args
+    ev.wd(Z(k) >= 0, "read_size", node)
+    fp, end = Z(st.ghost["fp"]), ex.ctx["end"]
+    got = simp(z3.If(end - fp < Z(k), end - fp, Z(k)))
+    st.ghost["fp"] = simp(fp + got)
+    st.ghost["reads"] = st.ghost["reads"] + 1
+    return SymBuf(fp, got)
+
+
+def _wg_unpack(ex, st, args, kwargs, node, ev):
+    if not (len(args) == 2 and isinstance(args[0], str) and isinstance(args[1], SymBuf)):
+        raise Outside("struct.unpack form")
+    ex.oblige(st, args[1].n == 4, f"unpack_gets_four_bytes.L{node.lineno - ex.fx.lineno}", "wd", node.lineno)
+    if args[0] in (">l", "!l", ">i", "!i"):
+        return (WORD(args[1].lo),)
+    other = z3.Function("word_in_format_" + "".join(ch if ch.isalnum() else "_" for ch in args[0]), I, I)      # some other reading of the bytes
+    return (other(args[1].lo),)
+
+
+def _wg_setup(ex, st):
+    p, L, end = api.sym("p"), api.sym("buffered"), api.sym("stream_end")
+    st.assume(z3.And(p >= 0, L >= 0, end >= p + L))
+    api.mk_obj(st, "word_get", "Closure", {"inpbuf": SymBuf(p, L)})
+    api.mk_obj(st, "file_", "File", {})
+    st.env["error"] = Opaque("IOError", "exc")
+    st.ghost.update(fp=simp(p + L), reads=0)          # the file is positioned right after the buffered bytes
+    ex.ctx = dict(p=p, L=L, end=end)
+
+
+def contract_word_get():
+    def after(ev):
+        c, st = ev.ex.ctx, ev.st
+        b = st.fields.get(("word_get", "inpbuf"))
+        if not isinstance(b, SymBuf):
+            return z3.BoolVal(False)
+        return z3.And(b.lo == c["p"] + 4, b.lo + b.n == Z(st.ghost["fp"]), b.n >= 0)
+
+    consts = {"AFTER": SpecFn(after), "WORD0": SpecFn(lambda ev: WORD(ev.ex.ctx["p"])), "LEFT": SpecFn(lambda ev: ev.ex.ctx["end"] - ev.ex.ctx["p"]),
+              "READS": SpecFn(lambda ev: ev.st.ghost["reads"]), "BUFFERED": SpecFn(lambda ev: ev.ex.ctx["L"])}
+    for k_, v_ in extract.module_constants("_sphere").items():
+        if isinstance(v_, int) and k_ not in consts:
+            consts[k_] = v_
+    c = Contract(
+        target="_sphere:copy_shortened_samples.<locals>.word_get", uses=["A-PYSEM", "A-IO-STREAM"],
+        consts=consts,
+        handlers={"memoryview": lambda ex, st, args, kwargs, node, ev: args[0], "binop": _wg_binop, "File.read": _wg_read, "struct.unpack": _wg_unpack},
+        ensures=[("next_big_endian_word", "result == WORD0()"), ("advances_by_four_buffer_and_file_stay_contiguous", "AFTER()")],
+    )
+    c.raises_now = {"IOError": "LEFT() < 4"}
+    return c
+
+
+def unit_word_get(prop="C13"):
+    def unit(tier, known):
+        from contracts.registry import run_contract
+
+        def tc(ob):
+            try:
+                from rtc import c13
+                return list(c13._error_cases(0, "quick")) + list(c13._grid_cases(0, "quick"))[:30]
+            except Exception:
+                return None
+        return run_contract(prop, ("_sphere", "copy_shortened_samples.<locals>.word_get"), contract_word_get(), [("", _wg_setup)], name="word_get",
+                            to_case=tc, replay_module="rtc.c13")
+    unit.__name__ = "word_get"
     return unit
